@@ -7,7 +7,7 @@ cd /verif
 git -C /repo diff --quiet || { echo "/repo not clean"; exit 2; }
 git -C /repo apply "$PATCH" || { echo "patch does not apply"; exit 2; }
 cp evidence/$P.json /var/tmp/evidence_$P.bak 2>/dev/null
-./check $P --tier $TIER 2>&1 | grep -E "VIOLATION|KNOWN|OK:|FAILED:|broken:|^  " | head -12
+./check $P --tier $TIER 2>&1 | grep -E "VIOLATION|KNOWN|OK:|FAILED:|broken:|^  [a-zA-Z]" | grep -v "^  File" | head -12
 git -C /repo checkout -- .
 cp /var/tmp/evidence_$P.bak evidence/$P.json 2>/dev/null
 git -C /repo status --short | head -3
